@@ -31,7 +31,16 @@ def load_findings():
     with open(p) as f:
         data = json.load(f)
     out = {}
-    for e in data.get("findings", []):
+    entries = list(data.get("findings", []))
+    # per-property staging files written while a check is being developed;
+    # merged into known_findings.json (tools/merge_findings.py) before release
+    d = os.path.join(ROOT, "known_findings.d")
+    if os.path.isdir(d):
+        for fn in sorted(os.listdir(d)):
+            if fn.endswith(".json"):
+                with open(os.path.join(d, fn)) as f:
+                    entries.extend(json.load(f).get("findings", []))
+    for e in entries:
         if e.get("status") == "open":
             out[e["signature"]] = e
     return out
@@ -165,19 +174,24 @@ class Shard:
                 self.env.end_case()
             except Exception:
                 pass
-        fr["evaluations"] += 1
+        n_rep = max(1, int(getattr(out, "n", 1) or 1))
+        fr["evaluations"] += n_rep
         k = fr["kinds"].setdefault(kind.name, {"evaluations": 0,
                                                "nontrivial": 0})
-        k["evaluations"] += 1
+        k["evaluations"] += n_rep
         fr["statuses"][out.status] = fr["statuses"].get(out.status, 0) + 1
         if out.status == "rejected":
             r = out.reason or "?"
             fr["rejected"][r] = fr["rejected"].get(r, 0) + 1
         if out.label is not None and out.status in ("ok", "rejected",
                                                     "violation"):
-            fr["labels"][out.label] = fr["labels"].get(out.label, 0) + 1
-            k["nontrivial"] += 1
-            if kind.hash_cases:
+            nt_rep = getattr(out, "nt", None)
+            fr["labels"][out.label] = fr["labels"].get(out.label, 0) + (
+                nt_rep if nt_rep is not None else 1)
+            k["nontrivial"] += nt_rep if nt_rep is not None else 1
+            if nt_rep is not None:
+                fr["extra_distinct"] += nt_rep
+            elif kind.hash_cases:
                 h = case_hash(case)
                 if h not in self._hashes:
                     self._hashes.add(h)
